@@ -150,6 +150,8 @@ struct Stage {
     depth: usize,
     groups: Vec<Vec<Case>>,
     queries: Vec<(usize, usize)>,
+    /// also read every projection AS OF the batch's snapshot and through the snapshot token
+    coordinates: bool,
 }
 
 fn stages(tier: Tier) -> Vec<Stage> {
@@ -193,6 +195,50 @@ fn stages(tier: Tier) -> Vec<Stage> {
         depth: 1,
         groups: one,
         queries: all_q.clone(),
+        coordinates: false,
+    });
+
+    // read-coordinate dimension on single-assertion histories: the lifecycle transitions are versions in
+    // the log, so a historical read has to pick the right one
+    let c_modes: &[Mode] = tier.pick(
+        &[Mode::Stated, Mode::Predicted, Mode::Hypothetical],
+        &Mode::ALL,
+    );
+    let c_windows: &[Window] = tier.pick(
+        &[Window::ALL[0], Window::ALL[4], Window::ALL[6]],
+        &Window::ALL,
+    );
+    let c_stances: &[Stance] = tier.pick(&[Stance::Support, Stance::Reject], &Stance::ALL);
+    let mut one_c = Vec::new();
+    for life in LIVES {
+        for &mode in c_modes {
+            for &window in c_windows {
+                for &stance in c_stances {
+                    // placement innermost: a batch mixes rival-value and own-value subjects
+                    for (functional, rival) in [(true, true), (true, false), (false, false)] {
+                        one_c.push(group(
+                            functional,
+                            &subject(x_spec(rival, stance, 9, mode, window), life, 'x'),
+                            &[],
+                        ));
+                    }
+                }
+            }
+        }
+    }
+    // batches hold one predicate kind: functional first, then plain
+    one_c.sort_by_key(|g| !g[0].functional);
+    v.push(Stage {
+        name: format!(
+            "read coordinates (now vs snapshot by AS OF SEQ / by token, fresh and past): 1 assertion over 4 lifecycles x {} modes x {} windows x {} stances x {{functional rival value, functional own value, plain}}, 8 subjects sharing the predicate per batch",
+            c_modes.len(),
+            c_windows.len(),
+            c_stances.len()
+        ),
+        depth: 1,
+        groups: one_c,
+        queries: EVAL_TIMES.iter().map(|t| (*t, 0usize)).collect(),
+        coordinates: true,
     });
 
     // 2 assertions: X over lifecycle x mode x window, Y a fixed always-recorded witness
@@ -281,6 +327,7 @@ fn stages(tier: Tier) -> Vec<Stage> {
         depth: 2,
         groups: two,
         queries: mode_q.clone(),
+        coordinates: false,
     });
 
     if tier == Tier::Thorough {
@@ -326,6 +373,7 @@ fn stages(tier: Tier) -> Vec<Stage> {
             depth: 2,
             groups: both,
             queries: mode_q,
+            coordinates: false,
         });
     }
     v
@@ -381,7 +429,10 @@ fn main() {
         }
         let n_groups = stage.groups.len();
         let n_hist: usize = stage.groups.iter().map(|g| g.len()).sum();
-        let per_job = n_hist.div_ceil((threads * 3).min(n_groups.max(1))).max(1);
+        // coordinate stages: at least 4 batches of 8 per job, so both binding orders occur in every job
+        let per_job = n_hist
+            .div_ceil((threads * 3).min(n_groups.max(1)))
+            .max(if stage.coordinates { 32 } else { 1 });
         let mut jobs: Vec<Vec<Vec<Case>>> = vec![vec![]];
         let mut acc = 0;
         for g in stage.groups {
@@ -396,9 +447,10 @@ fn main() {
             queries: stage.queries.clone(),
             entry_points_every: 4,
             restab: true,
-            batch_cases: 32,
-            rotate_batches: 16,
+            batch_cases: if stage.coordinates { 8 } else { 32 },
+            rotate_batches: if stage.coordinates { 2 } else { 16 },
             compare_within_group: true,
+            coordinates: stage.coordinates,
         };
         let t0 = Instant::now();
         let outcomes: Vec<Outcome> = util::par_map(
@@ -417,12 +469,19 @@ fn main() {
         for o in outcomes {
             run.add(
                 "evaluations",
-                o.evaluations + o.entry_point_checks + o.restab_checks + o.order_comparisons,
+                o.evaluations
+                    + o.entry_point_checks
+                    + o.restab_checks
+                    + o.order_comparisons
+                    + o.coordinate_projections
+                    + o.coordinate_comparisons,
             );
             run.add("projections_vs_model", o.evaluations);
             run.add("histories_recorded", o.histories);
             run.add("statement_sets", o.groups);
             run.add("interleaving_comparisons", o.order_comparisons);
+            run.add("historical_projections_vs_model", o.coordinate_projections);
+            run.add("coordinate_comparisons", o.coordinate_comparisons);
             run.add("entry_point_checks", o.entry_point_checks);
             run.add("reprojection_checks", o.restab_checks);
             run.add(
